@@ -153,4 +153,4 @@ THOROUGH_BOUNDED = [OrderedDictProbe()]
 
 # supplier units (see props/suppliers.py)
 from props import suppliers as _S   # noqa: E402
-UNITS = _S.extend(UNITS, _S.timing_readers(), [u for u in _S.accessors(("SMSimfile", "SSCSimfile", "SSCChart")) if u.name.endswith(".getter")])
+UNITS = _S.extend(UNITS, _S.timing_readers(), _S.beat_values(), [u for u in _S.accessors(("SMSimfile", "SSCSimfile", "SSCChart")) if u.name.endswith(".getter")])
